@@ -2,6 +2,7 @@
   Helper lemmas for the chunk-level model (Model/ClockSys.lean) over ℝ.
 -/
 import KiraModel.Proofs.ClockLemmas
+import KiraModel.Props.C19
 import KiraModel.Model.ClockSys
 
 namespace K
@@ -267,5 +268,248 @@ theorem Waiter.outcome (c : ℕ) (T : ClockTime ℝ) : ∀ (tr : List (ℝ × In
         simp [Waiter.process, StartTime.update, hv, StartTime.isImmediate]
       simp only [this, startIndex, cancelIndex, Option.isSome_map]
       exact ih
+
+/-! ### verdicts in terms of the clock -/
+
+/-- `Now` means: the clock exists, is ticking, and its time is at or past the target -/
+theorem whenToStart_now_iff (info : Info ℝ) (c : ℕ) (T : ClockTime ℝ) :
+    info.whenToStart c T = .now ↔
+      ∃ ci, info.clock c = some ci ∧ ci.ticking = true ∧ ClockTime.ge ci.time T = true := by
+  unfold Info.whenToStart
+  cases h : info.clock c with
+  | none => simp
+  | some ci =>
+    by_cases hc : (ci.ticking && ClockTime.ge ci.time T) = true
+    · simp only [hc, if_true, Option.some.injEq, exists_eq_left', true_iff]
+      simpa using hc
+    · simp only [hc, Bool.false_eq_true, if_false, Option.some.injEq, exists_eq_left']
+      constructor
+      · intro h'; exact absurd h' (by simp)
+      · intro ⟨a, b⟩; exact absurd (by simp [a, b]) hc
+
+/-- `Never` means: the clock does not exist -/
+theorem whenToStart_never_iff (info : Info ℝ) (c : ℕ) (T : ClockTime ℝ) :
+    info.whenToStart c T = .never ↔ info.clock c = none := by
+  unfold Info.whenToStart
+  cases h : info.clock c with
+  | none => simp
+  | some ci => by_cases hc : (ci.ticking && ClockTime.ge ci.time T) = true <;> simp [hc]
+
+/-- for well-formed times `>=` is the order of `ticks + fraction` -/
+theorem ge_iff_val (a b : ClockTime ℝ) (ha : ClockTime.WF a) (hb : ClockTime.WF b) :
+    ClockTime.ge a b = true ↔ ClockTime.val b ≤ ClockTime.val a := by
+  obtain ⟨h0, h1, h2, h3⟩ := C19_clocktime_order a b ha hb
+  unfold ClockTime.ge
+  simp only [Bool.or_eq_true, beq_iff_eq]
+  constructor
+  · rintro (h | h)
+    · exact le_of_eq (h1.mp h).symm
+    · exact le_of_lt (h2.mp h)
+  · intro h
+    rcases lt_or_eq_of_le h with h | h
+    · exact Or.inr (h2.mpr h)
+    · exact Or.inl (h1.mpr h.symm)
+
+/-! ### modulators: processed before the clocks are updated -/
+
+theorem ModTweener.update_congr (m : ModTweener ℝ) (dt : ℝ) (i1 i2 : Info ℝ)
+    (h : ∀ c t, i1.whenToStart c t = i2.whenToStart c t) : m.update dt i1 = m.update dt i2 := by
+  unfold ModTweener.update
+  cases m.state with
+  | idle => rfl
+  | tweening a b time tween =>
+    cases tween.startTime <;> simp [h]
+
+theorem Sys.processMods_eq (s : Sys ℝ) (dt : ℝ) :
+    s.processMods dt = some (s.mods.map (fun p => (p.1, p.2.update dt s.mixInfo))) := by
+  unfold Sys.processMods
+  rw [forEachSelfRef_indep (ModTweener.new (0.0 : ℝ)) _ (fun m => m.update dt s.mixInfo)]
+  · simp
+  · intro m view
+    simp only [Option.some.injEq]
+    exact ModTweener.update_congr m dt _ _ (fun c t => rfl)
+
+theorem Sys.chunk_mods (fuel : ℕ) (s s' : Sys ℝ) (dt : ℝ) (h : s.chunk fuel dt = some s') :
+    s'.mods = s.mods.map (fun p => (p.1, p.2.update dt s.mixInfo)) := by
+  unfold Sys.chunk at h
+  rw [Sys.processMods_eq] at h
+  simp only at h
+  split at h
+  · exact absurd h (by simp)
+  · simp only [Option.some.injEq] at h
+    subst h; rfl
+
+/-- a tweener waiting for a clock time: it stays exactly as it is unless the verdict is `Now`, and
+    with `Now` its tween starts in this very update -/
+theorem ModTweener.update_waiting (m : ModTweener ℝ) (a b : ℝ) (D : ℕ) (e : Easing ℝ) (c : ℕ)
+    (T : ClockTime ℝ) (dt : ℝ) (info : Info ℝ)
+    (hs : m.state = .tweening a b 0 ⟨.clockTime c T, D, e⟩) :
+    (info.whenToStart c T ≠ .now → m.update dt info = m)
+    ∧ (info.whenToStart c T = .now →
+        (m.update dt info).state = .idle
+        ∨ (m.update dt info).state = .tweening a b (0 + dt) ⟨.clockTime c T, D, e⟩) := by
+  constructor
+  · intro h
+    unfold ModTweener.update
+    simp only [hs, h, decide_false, Bool.not_false, if_true]
+    cases m; simp_all
+  · intro h
+    unfold ModTweener.update
+    simp only [hs, h, decide_true, Bool.not_true, Bool.false_eq_true, if_false]
+    by_cases hd : (durToSecs D : ℝ) ≤ dt
+    · left; simp [hd]
+    · right; simp [hd]
+
+/-! ### a clock never sees itself -/
+
+/-- generic-type version of C06's "holds until the clock start": while the verdict is not `Now`
+    a tween waiting for a clock time keeps its state (tween time stays 0) -/
+theorem Parameter.update_waiting_clock {τ : Type} (tw : Tweenable ℝ τ) (p : Parameter ℝ τ) (dt : ℝ)
+    (info : Info ℝ) (start : τ) (target : Value ℝ τ) (c : ℕ) (ct : ClockTime ℝ) (D : ℕ) (e : Easing ℝ)
+    (hs : p.state = .tweening start target 0 ⟨.clockTime c ct, D, e⟩) (hst : p.stagnant = false)
+    (hw : info.whenToStart c ct ≠ .now) :
+    (p.update tw dt info).1.state = p.state ∧ (p.update tw dt info).1.stagnant = false := by
+  unfold Parameter.update
+  simp only [hst, Bool.false_eq_true, if_false]
+  unfold Parameter.updateTween
+  simp only [hs, hw, decide_false, Bool.not_false, if_true]
+  split <;> exact ⟨rfl, rfl⟩
+
+/-- the stand-in clock is not ticking, so nothing scheduled on its time is ever due -/
+theorem dummy_never_now (view : ℕ → Option (Clock ℝ)) (mv : ℕ → Option (ModTweener ℝ)) (k : ℕ)
+    (T : ClockTime ℝ) (h : view k = some Clock.dummy) :
+    (Sys.infoOf view mv).whenToStart k T = .later := by
+  simp [Info.whenToStart, Sys.infoOf, h, Clock.info, Clock.dummy, Clock.new]
+
+/-- a clock whose speed tween waits for the clock's *own* time, with no new speed command pending -/
+def OwnWaiting (k : ℕ) (start : ClockSpeed ℝ) (target : Value ℝ (ClockSpeed ℝ)) (T : ClockTime ℝ) (D : ℕ)
+    (e : Easing ℝ) (c : Clock ℝ) : Prop :=
+  c.speed.state = .tweening start target 0 ⟨.clockTime k T, D, e⟩ ∧ c.speed.stagnant = false
+    ∧ c.cmds.setSpeed = none
+
+theorem OwnWaiting.update {k : ℕ} {start : ClockSpeed ℝ} {target : Value ℝ (ClockSpeed ℝ)}
+    {T : ClockTime ℝ} {D : ℕ} {e : Easing ℝ} {c c' : Clock ℝ} (fuel : ℕ) (dt : ℝ)
+    (view : ℕ → Option (Clock ℝ)) (mv : ℕ → Option (ModTweener ℝ)) (r : Option ℕ)
+    (h : OwnWaiting k start target T D e c) (hv : view k = some Clock.dummy)
+    (hu : c.update fuel dt (Sys.infoOf view mv) = some (c', r)) : OwnWaiting k start target T D e c' := by
+  obtain ⟨h1, h2, h3⟩ := h
+  obtain ⟨f1, _, f3, _⟩ := Clock.update_frame fuel c c' dt _ r hu
+  have hw : (Sys.infoOf view mv).whenToStart k T ≠ .now := by rw [dummy_never_now view mv k T hv]; simp
+  obtain ⟨g1, g2⟩ := Parameter.update_waiting_clock twCs c.speed dt _ start target k T D e h1 h2 hw
+  exact ⟨by rw [f1, g1, h1], by rw [f1, g2], by rw [f3, h3]⟩
+
+theorem OwnWaiting.onStartProcessing {k : ℕ} {start : ClockSpeed ℝ} {target : Value ℝ (ClockSpeed ℝ)}
+    {T : ClockTime ℝ} {D : ℕ} {e : Easing ℝ} {c : Clock ℝ}
+    (h : OwnWaiting k start target T D e c) : OwnWaiting k start target T D e c.onStartProcessing := by
+  obtain ⟨h1, h2, h3⟩ := h
+  unfold Clock.onStartProcessing OwnWaiting
+  simp only [h3]
+  cases c.cmds.setTicking <;> by_cases hr : c.cmds.reset = true <;>
+    simp [hr, Clock.updateShared, Clock.setTicking, Clock.reset, ClockCmds.empty, h1, h2]
+
+/-- handle calls other than `set_speed` -/
+def HCmd.notSetSpeed : HCmd ℝ → Prop
+  | .setSpeed _ _ => False
+  | _ => True
+
+theorem OwnWaiting.cmd {k : ℕ} {start : ClockSpeed ℝ} {target : Value ℝ (ClockSpeed ℝ)}
+    {T : ClockTime ℝ} {D : ℕ} {e : Easing ℝ} {c : Clock ℝ} (cmd : HCmd ℝ) (hc : cmd.notSetSpeed)
+    (h : OwnWaiting k start target T D e c) : OwnWaiting k start target T D e (cmd.apply c) := by
+  obtain ⟨h1, h2, h3⟩ := h
+  cases cmd with
+  | setSpeed _ _ => exact absurd hc (by simp [HCmd.notSetSpeed])
+  | start => exact ⟨h1, h2, h3⟩
+  | pause => exact ⟨h1, h2, h3⟩
+  | stop => exact ⟨h1, h2, h3⟩
+  | drop => exact ⟨h1, h2, h3⟩
+
+theorem mem_mapKey {T : Type} (id : ℕ) (f : T → T) (l : List (ℕ × T)) (p : ℕ × T) :
+    p ∈ mapKey id f l ↔ ∃ q ∈ l, p = if q.1 = id then (q.1, f q.2) else q := by
+  unfold mapKey
+  simp only [List.mem_map]
+  constructor
+  · rintro ⟨q, hq, rfl⟩; exact ⟨q, hq, rfl⟩
+  · rintro ⟨q, hq, rfl⟩; exact ⟨q, hq, rfl⟩
+
+/-- events that do not send a new speed command to clock `k` -/
+def Ev.leavesSpeedOf (k : ℕ) : Ev ℝ → Prop
+  | .clockCmd id cmd => id = k → cmd.notSetSpeed
+  | _ => True
+
+/-- the system invariant behind "never fires": every entry under key `k` is still waiting -/
+def OwnInv (k : ℕ) (start : ClockSpeed ℝ) (target : Value ℝ (ClockSpeed ℝ)) (T : ClockTime ℝ) (D : ℕ)
+    (e : Easing ℝ) (s : Sys ℝ) : Prop :=
+  k < s.nextId ∧ (∀ p ∈ s.clocks, p.1 = k → OwnWaiting k start target T D e p.2)
+    ∧ (∀ p ∈ s.newClocks, p.1 = k → OwnWaiting k start target T D e p.2)
+
+theorem OwnInv.step {k : ℕ} {start : ClockSpeed ℝ} {target : Value ℝ (ClockSpeed ℝ)}
+    {T : ClockTime ℝ} {D : ℕ} {e : Easing ℝ} (fuel : ℕ) (s s' : Sys ℝ) (ev : Ev ℝ)
+    (h : OwnInv k start target T D e s) (hev : ev.leavesSpeedOf k) (hs : s.step fuel ev = some s') :
+    OwnInv k start target T D e s' := by
+  obtain ⟨hk, hc, hn⟩ := h
+  cases ev with
+  | addClock sp =>
+    simp only [Sys.step, Option.some.injEq] at hs; subst hs
+    refine ⟨by simp only; omega, hc, ?_⟩
+    intro p hp hpk
+    simp only [List.mem_append, List.mem_singleton] at hp
+    rcases hp with hp | rfl
+    · exact hn p hp hpk
+    · simp only at hpk; omega
+  | addTweener v =>
+    simp only [Sys.step, Option.some.injEq] at hs; subst hs
+    exact ⟨by simp only; omega, hc, hn⟩
+  | clockCmd id cmd =>
+    simp only [Sys.step, Option.some.injEq] at hs; subst hs
+    refine ⟨hk, ?_, ?_⟩
+    · intro p hp hpk
+      have hp' : p ∈ mapKey id (fun c => HCmd.apply c cmd) s.clocks := hp
+      obtain ⟨q, hq, rfl⟩ := (mem_mapKey id _ _ p).mp hp'
+      by_cases hqi : q.1 = id
+      · simp only [hqi, if_true] at hpk ⊢
+        exact OwnWaiting.cmd cmd (hev hpk) (hc q hq (by rw [hqi, hpk]))
+      · simp only [hqi, if_false] at hpk ⊢
+        exact hc q hq hpk
+    · intro p hp hpk
+      have hp' : p ∈ mapKey id (fun c => HCmd.apply c cmd) s.newClocks := hp
+      obtain ⟨q, hq, rfl⟩ := (mem_mapKey id _ _ p).mp hp'
+      by_cases hqi : q.1 = id
+      · simp only [hqi, if_true] at hpk ⊢
+        exact OwnWaiting.cmd cmd (hev hpk) (hn q hq (by rw [hqi, hpk]))
+      · simp only [hqi, if_false] at hpk ⊢
+        exact hn q hq hpk
+  | tweenerSet _ _ _ => simp only [Sys.step, Option.some.injEq] at hs; subst hs; exact ⟨hk, hc, hn⟩
+  | tweenerDrop _ => simp only [Sys.step, Option.some.injEq] at hs; subst hs; exact ⟨hk, hc, hn⟩
+  | play _ => simp only [Sys.step, Option.some.injEq] at hs; subst hs; exact ⟨hk, hc, hn⟩
+  | startProcessing =>
+    simp only [Sys.step, Option.some.injEq] at hs; subst hs
+    refine ⟨hk, ?_, by simp [Sys.startProcessing]⟩
+    intro p hp hpk
+    simp only [Sys.startProcessing, List.mem_map, List.mem_append, List.mem_filter] at hp
+    obtain ⟨q, hq, rfl⟩ := hp
+    rcases hq with ⟨hq, _⟩ | hq
+    · exact OwnWaiting.onStartProcessing (hc q hq hpk)
+    · exact OwnWaiting.onStartProcessing (hn q hq hpk)
+  | chunk dt =>
+    simp only [Sys.step, Sys.chunk] at hs
+    split at hs
+    · exact absurd hs (by simp)
+    · rename_i mods _
+      split at hs
+      · exact absurd hs (by simp)
+      · rename_i clocks hcl
+        simp only [Option.some.injEq] at hs; subst hs
+        refine ⟨hk, ?_, hn⟩
+        intro p hp hpk
+        have := forEachSelfRef_forall Clock.dummy _
+          (fun k' c => k' = k → OwnWaiting k start target T D e c)
+          (by
+            intro k' x view x' hview hq hx hk'
+            subst hk'
+            simp only [Option.map_eq_some_iff] at hx
+            obtain ⟨⟨c1, r⟩, hu, rfl⟩ := hx
+            exact OwnWaiting.update fuel dt view _ r (hq rfl) hview hu)
+          s.clocks [] clocks (by simp) (fun p hp => hc p hp) hcl
+        exact this p hp hpk
 
 end K
